@@ -92,6 +92,7 @@ type timerHarness struct {
 	ctx   context.Context
 	v     *ev.Verdict
 	hreq  int
+	handlers int // firing handlers currently running
 	idReuse int
 	nearDue int
 }
@@ -217,7 +218,13 @@ func (h *timerHarness) emitter(ctx context.Context, message interface{}) error {
 		h.fail("timer %q fired although a cancel had returned success", inc.id)
 	}
 	handler := inc.handler
+	h.handlers++
 	h.mu.Unlock()
+	defer func() {
+		h.mu.Lock()
+		h.handlers--
+		h.mu.Unlock()
+	}()
 	for _, op := range handler {
 		h.mu.Lock()
 		h.hreq++
@@ -350,12 +357,27 @@ func checkTimers(c TimerCase) (v ev.Verdict) {
 		time.Sleep(time.Millisecond)
 	}
 	if !h.failed() {
-		time.Sleep(5 * time.Millisecond) // let handlers finish
+		// handlers may still make short timers: wait until nothing short
+		// is outstanding for a little while
+		for settle := 0; settle < 400; settle++ {
+			time.Sleep(5 * time.Millisecond)
+			h.mu.Lock()
+			outstanding := h.handlers
+			for _, inc := range h.incs {
+				if inc != nil && !inc.cancelled && inc.fired == 0 && inc.delay < 1000 {
+					outstanding++
+				}
+			}
+			h.mu.Unlock()
+			if outstanding == 0 {
+				break
+			}
+		}
 		// long timers are still pending and cancellable
 		h.mu.Lock()
 		var long []*incarnation
 		for _, id := range timerIds {
-			if inc := h.live[id]; inc != nil && !inc.cancelled && inc.fired == 0 {
+			if inc := h.live[id]; inc != nil && !inc.cancelled && inc.fired == 0 && inc.delay >= 1000 {
 				long = append(long, inc)
 			}
 		}
@@ -365,7 +387,7 @@ func checkTimers(c TimerCase) (v ev.Verdict) {
 			h.cancel(inc.id, nil)
 			h.mu.Lock()
 			if !inc.cancelled && h.bad == "" {
-				h.fail("timer %q (created %s) could not be cancelled", inc.id, map[bool]string{true: "inside a handler", false: "by the requester"}[inc.n > 0 && len(inc.handler) == 0 && false])
+				h.fail("timer %q (incarnation %d, %d ms) is pending but could not be cancelled", inc.id, inc.n, inc.delay)
 			}
 			h.mu.Unlock()
 		}
